@@ -106,6 +106,87 @@ fn probe_lane(m: &mut Mon, r: &mut Rng) {
         }
         (Err(p), _) | (_, Err(p)) => m.panic("Segment::integral_iter panic (probe)", &p, || json!({"ends": hxs(&ends)})),
     }
+    // other ways a caller may feed and drain the lazy iterators: sources without an exact size hint, internal
+    // iteration (fold / for_each / last), a few next() calls followed by internal iteration, skipping
+    let style = r.below(7);
+    let n = pw.segments.len();
+    let j = r.usize(0, n.min(4));
+    let byref2 = r.chance(0.5);
+    let full = guard(|| {
+        macro_rules! drain {
+            ($it:expr) => {{
+                let mut it = $it;
+                let mut out: Vec<Segment<TrI>> = Vec::new();
+                match style {
+                    0 | 1 => it.for_each(|p| out.push(p)),
+                    2 => {
+                        out = it.fold(Vec::new(), |mut v, p| {
+                            v.push(p);
+                            v
+                        })
+                    }
+                    3 => {
+                        for _ in 0..j {
+                            if let Some(p) = it.next() {
+                                out.push(p);
+                            }
+                        }
+                        it.for_each(|p| out.push(p));
+                    }
+                    4 => {
+                        // skip(j): only the pieces from j on are yielded
+                        out = it.skip(j).collect();
+                    }
+                    5 => {
+                        // step_by(2) keeps pieces 0, 2, 4, ...
+                        out = it.step_by(2).collect();
+                    }
+                    _ => {
+                        out = it.last().into_iter().collect();
+                    }
+                }
+                out
+            }};
+        }
+        if byref2 {
+            match style {
+                0 => drain!(Segment::integral_iter_ref(pw.segments.iter().filter(|_| true), k)),
+                1 => {
+                    let mut src = pw.segments.iter();
+                    drain!(Segment::integral_iter_ref(std::iter::from_fn(move || src.next()), k))
+                }
+                _ => drain!(Segment::integral_iter_ref(&pw.segments, k)),
+            }
+        } else {
+            match style {
+                0 => drain!(Segment::integral_iter(pw.segments.clone().into_iter().filter(|_| true), k)),
+                1 => {
+                    let mut src = pw.segments.clone().into_iter();
+                    drain!(Segment::integral_iter(std::iter::from_fn(move || src.next()), k))
+                }
+                _ => drain!(Segment::integral_iter(pw.segments.clone(), k)),
+            }
+        }
+    });
+    match (full, guard(|| Segment::integral_iter_ref(&pw.segments, k).collect::<Vec<_>>())) {
+        (Ok(got), Ok(all)) => {
+            m.count(["iterator_style:filter_source", "iterator_style:from_fn_source", "iterator_style:fold", "iterator_style:next_then_for_each",
+                "iterator_style:skip", "iterator_style:step_by", "iterator_style:last"][style as usize]);
+            let want: Vec<Segment<TrI>> = match style {
+                4 => all.iter().skip(j).cloned().collect(),
+                5 => all.iter().step_by(2).cloned().collect(),
+                6 => all.last().cloned().into_iter().collect(),
+                _ => all.clone(),
+            };
+            if style <= 3 {
+                check_tr_integral(m, "Segment::integral_iter (other consumption style)", &ends, Some(k), &got);
+            }
+            if got != want {
+                m.violation(&format!("integral_iter yields different pieces when fed / drained differently (style {})", style), || json!({"ends": hxs(&ends), "style": style, "skip": j, "by_ref": byref2}));
+            }
+        }
+        (Err(p), _) | (_, Err(p)) => m.panic("Segment::integral_iter panic (probe, other consumption style)", &p, || json!({"ends": hxs(&ends), "style": style})),
+    }
     tr_log_take();
     m.sample("probe", 1, || json!({"ends": ends.iter().take(10).collect::<Vec<_>>(), "knot": [k.x, k.y]}));
 }
@@ -236,7 +317,7 @@ fn canaries11(m: &mut Mon, sink: &mut Sink) {
 }
 
 pub const FLOORS: &[&str] = &[
-    "probe_functions", "probe_duplicate_breakpoints", "iterator_variants_compared", "single_piece", "duplicate_breakpoints",
+    "probe_functions", "probe_duplicate_breakpoints", "iterator_variants_compared", "iterator_style:filter_source", "iterator_style:fold", "iterator_style:skip", "iterator_style:last", "single_piece", "duplicate_breakpoints",
     "knot_inside_first_piece", "knot_outside_first_piece", "real:poly:0", "real:poly:7", "real:log:0", "real:log:4", "real:log:8",
     "continuity_checked", "global_integral_checked", "antiderivative_checked", "open_ended_last_piece",
     "origin:pipeline_spline", "origin:pipeline_linear", "origin:pipeline_spline_derivative",
